@@ -494,8 +494,9 @@ def t_skin_init(eng):
         if form == 2:
             eng.oblige(n + 'neither-given-is-a-ValueError', ex.cls == 'ValueError')
         else:
-            # 1/0 for resistivity 0: recorded under C20
-            eng.oblige(n + 'raises-only-for-zero-resistivity', z3.And(z3.BoolVal(form == 1 and ex.cls == 'ZeroDivisionError'), term(x) == 0))
+            # a resistivity that is not positive is rejected (ValueError since d89d96b; a ZeroDivisionError for 0 before)
+            eng.oblige(n + 'rejects-only-a-resistivity-that-is-not-positive-with-ValueError',
+                       z3.And(z3.BoolVal(form == 1 and ex.cls == 'ValueError'), term(x, True) <= 0))
         return
     eng.cover('skin_init%d' % form)
     eng.oblige(n + 'one-of-the-two-is-required', form != 2)
